@@ -323,6 +323,120 @@ def _filter_known(res, steps):
     return res
 
 
+# ---------------------------------------------------------------- real-OS replay (pty) where the history is expressible
+def real_history(steps, thr, sig):
+    """the same history against the real OS on a pty: arrivals are written to the pty master, clock ticks are real
+    sleeps, requests without timeout get 1.5 s.  Only conservation / order / exceptions are judged (not timing).
+    returns None, a description, or 'n/a' (steps that act inside a blocked select are not expressible without threads)"""
+    import os
+    import time as rtime
+    import tty as rtty
+    import curtsies.input as ci
+    from curtsies import events
+    if any(k.startswith("during_") for k, _ in steps):
+        return "n/a"
+    master, slave = os.openpty()
+    rtty.setraw(master)
+    stream = os.fdopen(slave, "rb+", buffering=0)
+    saved_enc = ci.getpreferredencoding
+    ci.getpreferredencoding = lambda: "utf8"
+    try:
+        kw = {}
+        if thr != "default":
+            kw["paste_threshold"] = thr
+        inp = ci.Input(in_stream=stream, keynames=events.Keynames.BYTES, sigint_event=sig, **kw)
+        arrived = bytearray()
+        returned = bytearray()
+        fired = {0: [], 1: [], "ts": [], "sched": []}
+        got = {0: [], 1: [], "ts": [], "sched": []}
+        problems = []
+        trig = {0: None, 1: None}
+        ts_cb = [None]
+        sched_cb = [None]
+
+        def mk(tag):
+            return lambda **k: Ev((tag, 0), **k)
+
+        def note(r):
+            if r is None:
+                return
+            items = r.events if isinstance(r, events.PasteEvent) else [r]
+            for it in items:
+                if isinstance(it, bytes):
+                    returned.extend(it)
+                elif isinstance(it, Ev):
+                    got[it.tag[0]].append(it)
+                    if it.tag[0] == "sched" and it.when > rtime.time() + 1e-3:
+                        problems.append("scheduled event returned before its time")
+
+        with inp:
+            for kind, arg in steps:
+                if kind == "arrive":
+                    os.write(master, CHUNKS[arg])
+                    arrived.extend(CHUNKS[arg])
+                    rtime.sleep(0.02)
+                elif kind == "unget":
+                    import select as rselect
+                    data = b""
+                    while rselect.select([slave], [], [], 0.05)[0]:
+                        data += os.read(slave, 4096)
+                    arrived.extend(CHUNKS[arg])
+                    inp.unget_bytes(data + CHUNKS[arg])
+                elif kind == "event":
+                    if trig[arg] is None:
+                        trig[arg] = inp.event_trigger(mk(arg))
+                    n0 = len(inp.queued_events)
+                    trig[arg]()
+                    fired[arg].append(inp.queued_events[n0])
+                elif kind == "ts_event":
+                    if ts_cb[0] is None:
+                        ts_cb[0] = inp.threadsafe_event_trigger(mk("ts"))
+                    n0 = len(inp.queued_interrupting_events)
+                    ts_cb[0]()
+                    fired["ts"].append(inp.queued_interrupting_events[n0])
+                elif kind == "sched":
+                    if sched_cb[0] is None:
+                        sched_cb[0] = inp.scheduled_event_trigger(mk("sched"))
+                    n0 = len(inp.queued_scheduled_events)
+                    sched_cb[0](rtime.time() + arg)
+                    fired["sched"].append(inp.queued_scheduled_events[n0][1])
+                elif kind == "tick":
+                    rtime.sleep(arg)
+                elif kind == "send":
+                    note(inp.send(1.5 if arg is None else arg))
+            for _ in range(3000):
+                r = inp.send(0.05)
+                if r is None:
+                    if inp.queued_scheduled_events:
+                        rtime.sleep(0.6)
+                        continue
+                    break
+                note(r)
+        if bytes(returned) != bytes(arrived):
+            problems.append("bytes returned %r... != bytes arrived %r... (lengths %d / %d)" % (bytes(returned[:24]), bytes(arrived[:24]), len(returned), len(arrived)))
+        for src in fired:
+            want = fired[src] if src != "sched" else sorted(fired[src], key=lambda e: e.when)
+            if [id(x) for x in got[src]] != [id(x) for x in want]:
+                if src == "sched" and sorted(id(x) for x in got[src]) == sorted(id(x) for x in fired[src]):
+                    if [e.when for e in got[src]] == sorted(e.when for e in fired[src]):
+                        continue
+                problems.append("events of source %r: returned %r, fired %r" % (src, got[src], fired[src]))
+        return "; ".join(problems[:3]) if problems else None
+    except Exception as ex:
+        return "a request raised %r" % (ex,)
+    finally:
+        ci.getpreferredencoding = saved_enc
+        for c in (stream.close, lambda: os.close(master)):
+            try:
+                c()
+            except OSError:
+                pass
+
+
+def _conservation(res):
+    return bool(res) and any(k in res for k in ("bytes returned", "events of source", "a request raised", "paste event"))
+
+
 # ---------------------------------------------------------------- concrete twin
 def concrete(fn, params, args):
     if fn in ("decode", "tablecase"):
@@ -344,11 +458,16 @@ def concrete(fn, params, args):
             res = "a request raised %r at %s" % (ex, where)
         else:
             raise
+    real = "n/a"
+    if res is not None and _conservation(res) and "paste event does not hold" not in res:
+        real = real_history(steps, params["thr"], params["sig"])
+        if real != "n/a" and not _conservation(real):
+            return {"ok": None, "harness_error": True, "note": "OS model says %r, real pty says %r" % (res, real)}
     show = [(k, (a if not isinstance(a, str) or len(CHUNKS.get(a, b"")) < 20 else a + "(%d bytes)" % len(CHUNKS[a]))) for k, a in steps]
     region = None
     if res is not None and "UnicodeDecodeError" in res and ("arrive", "esc_") in steps:
         region = "C03-prefix-then-nonascii"
-    return {"ok": res is None, "observed": res, "known_region": region, "expected": "every byte and event exactly once, in order; no early None",
+    return {"ok": res is None, "observed": res, "real_os_replay": real, "known_region": region, "expected": "every byte and event exactly once, in order; no early None",
             "call": "Input(paste_threshold=%s, sigint_event=%r): %r then drain" % (params["thr"], params["sig"], show)}
 
 
